@@ -243,8 +243,12 @@ Definition edge_gradient_of (adj : bmat) : zmat :=
       | Some (r, c) => fun v => if Nat.eqb v r then 1%Z else if Nat.eqb v c then (-1)%Z else 0%Z
       | None => fun _ => 0%Z
       end).
+(* a graph without any edge r < c: np.concatenate([]) raises ValueError *)
 Definition edge_gradient (m : mesh) (nodal order1_only : bool) : option zmat :=
-  option_map edge_gradient_of (adjacency m nodal order1_only).
+  match adjacency m nodal order1_only with
+  | None => None
+  | Some adj => match upper_edges adj with [] => None | _ => Some (edge_gradient_of adj) end
+  end.
 
 (* calculate_e2v_matrix: one column per stored entry of `adj - I`
    (include_self_loop=False) or of adj (True; the unchanged implementation
